@@ -47,6 +47,7 @@ type verifStubState struct {
 	bufs    [][]byte      // every buffer handed to the decoder
 	dsts    []interface{} // every destination
 	jsonMap map[string]interface{}
+	jsonRaw map[string]json.RawMessage // the same top-level object with undecoded member values
 	// per-buffer decode script: the decoder yields byBuf[i].g1 (nil = error) for exactly that buffer
 	byBuf []verifBufClaims
 	// component list being decoded: the window of the input handed to the container's own
@@ -402,6 +403,12 @@ func verifJSONUnmarshal(data []byte, v interface{}) error {
 			return verifErrStub
 		}
 		*p = verifStub.jsonMap
+		return nil
+	case *map[string]json.RawMessage:
+		if verifStub.jsonRaw == nil || verifStubFail("json.err.map") {
+			return verifErrStub
+		}
+		*p = verifStub.jsonRaw
 		return nil
 	case *p1Claims:
 		if verifStub.p1 == nil || verifStubFail("json.err.claims") {
